@@ -210,6 +210,7 @@ type Script struct {
 	declOrder []string
 	decls     map[string]string // name -> full declaration command
 	axioms    []string          // closed axioms (quantified), asserted in every query
+	blobAxioms []string         // asserted only in queries that mention blob_ functions
 	log       []string          // assumption formulas in order of creation
 	fresh     map[string]int
 }
@@ -220,6 +221,18 @@ func newScript() *Script {
 	s.declRaw("Str", "(declare-sort Str 0)")
 	s.declRaw("Blob", "(declare-sort Blob 0)")
 	s.declRaw("null", "(declare-const null Ref)")
+	// byte arrays as values
+	s.declRaw("blob_at", "(declare-fun blob_at (Blob Int) Int)")
+	s.declRaw("blob_set", "(declare-fun blob_set (Blob Int Int) Blob)")
+	s.declRaw("blob_arr", "(declare-fun blob_arr (Blob) (Array Int Int))")
+	s.declRaw("blob_of", "(declare-fun blob_of ((Array Int Int)) Blob)")
+	s.declRaw("blob_zero", "(declare-const blob_zero Blob)")
+	s.blobAxioms = append(s.blobAxioms,
+		"(forall ((b Blob) (i Int)) (! (and (<= 0 (blob_at b i)) (<= (blob_at b i) 255)) :pattern ((blob_at b i))))",
+		"(forall ((i Int)) (! (= (blob_at blob_zero i) 0) :pattern ((blob_at blob_zero i))))",
+		"(forall ((b Blob) (i Int) (v Int) (j Int)) (! (= (blob_at (blob_set b i v) j) (ite (= i j) v (blob_at b j))) :pattern ((blob_at (blob_set b i v) j))))",
+		"(forall ((b Blob) (i Int)) (! (= (select (blob_arr b) i) (blob_at b i)) :pattern ((select (blob_arr b) i))))",
+		"(forall ((a (Array Int Int)) (i Int)) (! (= (blob_at (blob_of a) i) (select a i)) :pattern ((blob_at (blob_of a) i))))")
 	return s
 }
 
@@ -282,8 +295,17 @@ func (s *Script) query(upto int, goal Term, wantModel bool) string {
 	for _, a := range s.axioms {
 		b.WriteString("(assert " + a + ")\n")
 	}
+	usesBlob := strings.Contains(goal.S, "blob_")
 	for i := 0; i < upto && i < len(s.log); i++ {
 		b.WriteString("(assert " + s.log[i] + ")\n")
+		if !usesBlob && strings.Contains(s.log[i], "blob_") {
+			usesBlob = true
+		}
+	}
+	if usesBlob {
+		for _, a := range s.blobAxioms {
+			b.WriteString("(assert " + a + ")\n")
+		}
 	}
 	b.WriteString("(assert (not " + goal.S + "))\n")
 	b.WriteString("(check-sat)\n")
